@@ -30,6 +30,13 @@ def run(tier, seed, replay=None):
         decay = rng.random() < 0.4 and not singleton
         eps = rng.choice([1e-12, 1e-10, 1e-8, 1e-6, 1e-4, 1e-2, 1e-1])
         rk = (lambda: [1] + [rng.randint(2, 3) for _ in range(d - 1)] + [1]) if singleton else (lambda: solverkit.ranks(rng, d, rng.choice([1, 2, 3, 4])))
+        uneven = i < (4 if tier == "quick" else 60)          # bonds that converge at different sweeps: high product ranks inside, a low-rank last bond
+        if uneven:
+            routine = "dmrg_hadamard" if i % 2 == 0 else "fast_matvec"
+            N = rng.choice([[4, 4, 4, 4, 2], [5, 4, 3, 3, 2], [6, 5, 3, 2, 2, 2], [4, 4, 4, 3, 2]]); d = len(N); M = list(N)
+            singleton = False; decay = False; cplx = i % 4 == 2; dtype = torch.complex128 if cplx else torch.float64
+            eps = rng.choice([1e-10, 1e-8])
+            rk = lambda: [1] + [4] * (d - 2) + [rng.choice([1, 2]), 1]
         sd = rng.randrange(1 << 30); torch.manual_seed(sd)
         desc = {"routine": routine, "d": d, "N": N, "M": M, "eps": eps, "decay": decay, "dtype": str(dtype), "torch_seed": sd, "interior_singleton_mode": singleton}
         if routine in ("fast_matvec", "amen_mv"):
@@ -65,7 +72,7 @@ def run(tier, seed, replay=None):
                 y = ops["y"]; exact = x * y
             else:
                 B = ops["B"]; exact = A @ B
-        kd = routine + ("+guess" if guess is not None else "") + (" singleton-mode" if singleton else "")
+        kd = routine + ("+guess" if guess is not None else "") + (" singleton-mode" if singleton else "") + (" uneven-bonds" if uneven else "")
         dist[kd] = dist.get(kd, 0) + 1
         if i % 20 == 0 and len(samples) < 5: samples.append(desc)
         snaps = {k: history.Snap(v) for k, v in ops.items()}
